@@ -10,7 +10,6 @@ import (
 	"go/token"
 	"go/types"
 	"os"
-	"path/filepath"
 	"regexp"
 	"sort"
 	"strings"
@@ -41,6 +40,9 @@ func runC02(c *Ctx, r *Report) {
 			eff[sp] = fe
 			byName[sp] = f
 		}
+	}
+	if fl := os.Getenv("MLRLINT_FLAG"); fl != "" && eff[fl] != nil {
+		fmt.Fprintf(os.Stderr, "EFFECT %s %v calls=%v\n", fl, eff[fl].StoreMap(), eff[fl].Calls)
 	}
 	env := newC02env(c)
 	env.unmarked = unmarkedValues(env, flags, eff)
@@ -790,7 +792,7 @@ func c02Separators(c *Ctx, r *Report) {
 	for _, k := range sortedKeys(core) {
 		r.Check(got[k] == core[k], "R02.7", "alias "+k, "pkg/cli/separators.go", fmt.Sprintf("%q", got[k]), fmt.Sprintf("separator alias %q has value %q, expected %q", k, got[k], core[k]))
 	}
-	doc, err := os.ReadFile(filepath.Join(c.Repo, "docs/src/reference-main-separators.md"))
+	doc, err := c.ReadRepoFile("docs/src/reference-main-separators.md")
 	if err != nil {
 		r.Undecided("R02.7", "documented table", "docs/src/reference-main-separators.md", err.Error())
 		return
